@@ -116,7 +116,7 @@ func (r *Run) loadKnown() {
 	// /verif/KNOWN_FINDINGS.txt, one record per line (never written at run time):
 	//   known: property=<id> key=<signature> :: <what fails>
 	//   fixed: property=<id> <commit> <what failed>      (suppresses nothing)
-	f, err := os.Open(filepath.Join(Root(), "KNOWN_FINDINGS.txt"))
+	f, err := os.Open("/verif/KNOWN_FINDINGS.txt") // always the committed file, also when VERIF_ROOT redirects outputs
 	if err != nil {
 		return
 	}
